@@ -67,7 +67,10 @@ func stdioPlaintext(cfg vlib.PairConfig, prefix []byte) []byte {
 	defer c2sW.Close()
 	defer s2cR.Close()
 	defer s2cW.Close()
-	sc := cert.ServerConfig{Config: cert.Config{Certificate: cfg.ServerCert.CertPEM, PrivateKey: cfg.ServerCert.KeyPEM}}
+	sc := cert.ServerConfig{}
+	if cfg.ServerCert != nil {
+		sc = cert.ServerConfig{Config: cert.Config{Certificate: cfg.ServerCert.CertPEM, PrivateKey: cfg.ServerCert.KeyPEM}}
+	}
 	srv := &server.IoServer{ServerConfig: sc, Address: addr.MustParseAddress("stdio+tls://"), Input: c2sR, Output: s2cW}
 	chans := server.Channels{}
 	for _, c := range cfg.Channels {
